@@ -9,18 +9,19 @@ Model: `Stream.recover`, `Stream.recoverWithWalWith` (M4, `Model/Stream.lean`) o
 then the deltas, applied with `apply_remote_delta` (= per-key fold of `RV.merge`).
 
 * `manifest_inv_new / _allocate / _addSegment / _flush_step / _compactSegments`: the manifest
-  invariant and its preservation (`manifest_inv_preserved`).  `compact_segments` preserves it only
-  when the checkpoint covers already allocated ids (`c.last < next`); on a manifest that has never
-  allocated an id no such value exists — `checkpoint_before_first_flush_counterexample`
-  (known finding, library-API scope); with the suggested repair (`bump`) it is unconditional.
+  invariant and its preservation (`manifest_inv_preserved`) by the CURRENT tree, unconditionally.
+  The pinned commit's `compact_segments` (no bump of `next_segment_id`) preserved it only when the
+  checkpoint covers already allocated ids — `manifest_inv_compactSegments_pinned`,
+  `checkpoint_before_first_flush_counterexample` (fixed defect).
 * `recover_selects_all`: under the invariant the updates recovery returns are exactly the
   checkpoint entries plus the deltas of every listed segment.
 * `recover_exact`, `recover_order_independent`, `recover_duplicate_tolerant`,
   `recover_idempotent`: via `FoldACI` on the carrier where C07 proves the three laws
   (`Coherent`, decidable).
-* `recover_with_wal_complete`: proved for the repaired code (no high-water-mark filter);
-  `hwm_filter_counterexample` refutes it for the code that exists (known finding);
-  `recover_with_wal_complete_partial` is what the existing code does satisfy.
+* `recover_with_wal_complete_current`, `recover_with_wal_exact_current`: nothing in the WAL is
+  dropped by the current tree (no high-water-mark filter); `hwm_filter_counterexample` refutes
+  it for the pinned commit (fixed defect), `recover_with_wal_complete_partial` is what the
+  filter did satisfy.
 -/
 namespace RedisVerif
 namespace C11
@@ -142,23 +143,24 @@ theorem manifest_inv_flush_step {m : Manifest} (h : ManifestInv m) (count size l
   · intro c hc
     exact (h.2.2 c hc).1
 
-/-- `compact_segments` preserves the invariant when the checkpoint covers allocated ids only … -/
-theorem manifest_inv_compactSegments {m : Manifest} (h : ManifestInv m) (c : ChkInfo)
-    (hc : c.last < m.next) : ManifestInv (m.compactSegments c) := by
+/-- `compact_segments` of the PINNED commit (no bump) preserves the invariant only when the
+    checkpoint covers allocated ids (`c.last < next`); see
+    `checkpoint_before_first_flush_counterexample` for the remaining case -/
+theorem manifest_inv_compactSegments_pinned {m : Manifest} (h : ManifestInv m) (c : ChkInfo)
+    (hc : c.last < m.next) : ManifestInv (m.compactSegmentsWith false c) := by
   obtain ⟨h1, h2, _⟩ := h
   refine ⟨List.Pairwise.filter _ h1, ?_, ?_⟩
   · intro s hs
     exact h2 s (List.mem_filter.mp hs).1
   · intro c' hc'
-    simp only [Manifest.compactSegments, Manifest.compactSegmentsWith, Option.some.injEq] at hc'
+    simp only [Manifest.compactSegmentsWith, Option.some.injEq] at hc'
     subst hc'
     refine ⟨hc, ?_⟩
     intro s hs
     have := (List.mem_filter.mp hs).2
     simpa using this
 
-/-- … and unconditionally with the suggested repair
-    `next_segment_id = max(next_segment_id, last_segment_id + 1)` -/
+/-- with `next_segment_id = max(next_segment_id, last_segment_id + 1)` it is unconditional -/
 theorem manifest_inv_compactSegments_repaired {m : Manifest} (h : ManifestInv m) (c : ChkInfo) :
     ManifestInv (m.compactSegmentsWith true c) := by
   obtain ⟨h1, h2, _⟩ := h
@@ -175,6 +177,12 @@ theorem manifest_inv_compactSegments_repaired {m : Manifest} (h : ManifestInv m)
     · intro s hs
       have := (List.mem_filter.mp hs).2
       simpa using this
+
+/-- **`compact_segments` of the current tree preserves the manifest invariant**, for every
+    checkpoint (also one taken before the first flush) -/
+theorem manifest_inv_compactSegments {m : Manifest} (h : ManifestInv m) (c : ChkInfo) :
+    ManifestInv (m.compactSegments c) :=
+  manifest_inv_compactSegments_repaired h c
 
 /-! ## what recovery selects -/
 
@@ -332,7 +340,7 @@ def C11_wal_complete (hwmFilter : Bool) : Prop :=
   ∀ (st : Store) (rid : Nat) (wal : List (Nat × Delta)) (r : Recovered),
     recoverWithWalWith hwmFilter st rid wal = .ok r → ∀ e ∈ wal, e.2 ∈ r.deltas
 
-/-- **proved for the repaired code** (replay every WAL entry; merge is idempotent, so entries
+/-- **proved for the code after the `fix:` commit** (replay every WAL entry; merge is idempotent, so entries
     already contained in segments are harmless: `recover_duplicate_tolerant`) -/
 theorem recover_with_wal_complete : C11_wal_complete false := by
   intro st rid wal r h e he
@@ -344,9 +352,14 @@ theorem recover_with_wal_complete : C11_wal_complete false := by
     simp only [Bool.false_eq_true, if_false, List.mem_append, List.mem_map]
     exact Or.inr ⟨e, he, rfl⟩
 
+/-- **no WAL entry is dropped by `recover_with_wal` of the current tree** -/
+theorem recover_with_wal_complete_current (st : Store) (rid : Nat) (wal : List (Nat × Delta))
+    (r : Recovered) (h : recoverWithWal st rid wal = .ok r) : ∀ e ∈ wal, e.2 ∈ r.deltas :=
+  recover_with_wal_complete st rid wal r h
+
 def hwmOf (m : Manifest) : Nat := m.segments.foldl (fun a s => Max.max a s.maxTs) 0
 
-/-- decidable hypothesis under which the code that exists is complete -/
+/-- decidable hypothesis under which the pinned commit's filter is complete -/
 def WalStampsAboveHwm (st : Store) (rid : Nat) (wal : List (Nat × Delta)) : Prop :=
   match recover st rid with
   | .ok r => ∀ e ∈ wal, e.1 ≥ hwmOf r.manifest
@@ -356,7 +369,7 @@ instance (st : Store) (rid : Nat) (wal : List (Nat × Delta)) : Decidable (WalSt
   unfold WalStampsAboveHwm
   split <;> infer_instance
 
-/-- **partial, code that exists**: complete when every WAL entry is stamped at or above the
+/-- **partial, pinned commit (with the high-water-mark filter)**: complete when every WAL entry is stamped at or above the
     greatest `max_timestamp` of the listed segments.  Missing for the full statement: entries of
     a shard / replica whose clock is behind another one's flushed maximum —
     `hwm_filter_counterexample`. -/
@@ -411,7 +424,17 @@ theorem recover_with_wal_exact {st : Store} {rid : Nat} {wal : List (Nat × Delt
       simp only [if_false, Bool.false_eq_true] at hmem ⊢
       rw [hmem d, htruth d]
 
-/-! ## counterexamples -/
+/-- the current tree: the state recovered with WAL replay is exactly the merge of everything
+    persisted in the object store and in the WAL -/
+theorem recover_with_wal_exact_current {st : Store} {rid : Nat} {wal : List (Nat × Delta)} {r : Recovered}
+    (h : recoverWithWal st rid wal = .ok r) (hinv : ManifestInv r.manifest)
+    (hc : Coherent (persisted st r.manifest ++ wal.map (·.2)))
+    (truth : List Delta)
+    (htruth : ∀ d, d ∈ truth ↔ d ∈ persisted st r.manifest ++ wal.map (·.2)) :
+    foldState r.updates = foldState truth :=
+  recover_with_wal_exact h hinv hc truth htruth
+
+/-! ## counterexamples (pinned commit; both defects are fixed in the current tree) -/
 
 def lwwAt (v t rid : Nat) : RV := RV.withValue [v] ⟨t, rid⟩
 
@@ -426,7 +449,8 @@ def hwmStore : Store :=
 /-- the WAL still holds an entry of shard B (key 98, `b`) stamped 5, not yet flushed -/
 def hwmWal : List (Nat × Delta) := [(5, (98, lwwAt 2 5 1))]
 
-/-- **Known finding C11:wal-hwm-filter.**  The high-water-mark filter of `recover_with_wal`
+/-- **Fixed defect C11:wal-hwm-filter** (see known_findings.json, `fixed`).  The high-water-mark
+    filter of the pinned commit's `recover_with_wal`
     drops a WAL entry whose stamp is below the greatest stamp of any flushed segment, although
     nothing else holds that update. -/
 theorem hwm_filter_counterexample : ¬ C11_wal_complete true := by
@@ -438,8 +462,8 @@ theorem hwm_filter_counterexample : ¬ C11_wal_complete true := by
   revert this
   decide
 
-/-- the same layout is recovered completely by the repaired code -/
-example : OkAnd (recoverWithWalWith false hwmStore 1 hwmWal)
+/-- the same layout is recovered completely by the current tree -/
+example : OkAnd (recoverWithWal hwmStore 1 hwmWal)
     (fun r => foldState r.updates = [(97, lwwAt 1 1000 1), (98, lwwAt 2 5 1)]) := by decide
 
 /-- manifest history: fresh manifest, checkpoint taken before the first flush
@@ -454,8 +478,8 @@ def chkFirstStore (bump : Bool) : Store :=
      (segName (chkFirstManifest bump).segments.head!.id, .segment [(97, lwwAt 1 3 1)]),
      (chkName 7, .checkpoint [] 0)]
 
-/-- **Known finding C11:checkpoint-before-first-flush.**  Segment ids start at 0 and
-    `compact_segments` does not advance `next_segment_id`: the first flush after a checkpoint
+/-- **Fixed defect C11:checkpoint-before-first-flush** (see known_findings.json, `fixed`).  Segment
+    ids start at 0 and the pinned commit's `compact_segments` does not advance `next_segment_id`: the first flush after a checkpoint
     taken on a manifest without segments gets id 0, breaks the manifest invariant
     (`debug_assert` only) and is skipped by recovery's `id > last_segment_id` filter although the
     manifest lists it. -/
@@ -465,7 +489,7 @@ theorem checkpoint_before_first_flush_counterexample :
       (fun r => (97, lwwAt 1 3 1) ∈ persisted (chkFirstStore false) r.manifest ∧ r.updates = []) := by
   decide
 
-/-- with the suggested repair the same history keeps the invariant and loses nothing -/
+/-- in the current tree the same history keeps the invariant and loses nothing -/
 example : ManifestInv (chkFirstManifest true) ∧
     OkAnd (recover (chkFirstStore true) 1) (fun r => r.updates = [(97, lwwAt 1 3 1)]) := by
   decide
